@@ -408,18 +408,29 @@ class ExprMixin:
             st = self.static_isinstance(x, names)
             if st is not None:
                 return st
-            if self.is_static(x):
+            if self.is_static(x) or self._typed_elem(x):
                 sub: Set[str] = set()
                 for n in names:
                     if n in self.project.classes:
                         sub |= {c.name for c in self.project.subclasses(n, strict=False)}
-                return self.config.test_isinstance(x, self.dom(x), sub)
+                d = self.dom(x)
+                if d.classes is None:
+                    return self.config.test_opaque(f"isinstance({show(x)}, {'|'.join(names)})")
+                return self.config.test_isinstance(x, d, sub)
             return None
         if is_app(v, "in") or is_app(v, "notin"):
             return None
         if self.is_static(v):
             return self.config.test_truthy(v, self.dom(v))
         return None
+
+    def _typed_elem(self, x) -> bool:
+        """a loop element whose static type is known: the kind of element is a per-element
+        configuration (the loop body is translated once per kind)"""
+        if isinstance(x, tuple) and x and x[0] == "elem":
+            ty = self.typeof(x)
+            return ty is not None and ty != ("prim", "any")
+        return False
 
     def static_isinstance(self, x, names) -> Optional[bool]:
         """isinstance decided from the shape / static type of the value"""
